@@ -123,6 +123,39 @@ CHECKS.update({
         assumptions=WF_ASSUME + ["width = bytes per line, the wrapper's own measure"],
     ),
 })
+CHECKS.update({
+    "C07": dict(
+        level="exploration",
+        rule="for every derivation of G (<= d deviations) rendered with upper-cased keywords and irregular gaps: every pair of gaps "
+             "(i <= j, or no closing toggle) as region boundaries x toggle spellings (own-line and inline), and 6 non-toggle spellings in "
+             "every gap; asm bodies from a 15-line alphabet (1 and 2 lines, 3 indentations, LF/CRLF, 3 block shapes); seeds containing "
+             "toggles or asm. Oracle: tokens the independent toggle rule / asm mode mark as verbatim are byte-identical incl. their "
+             "leading whitespace; keywords outside are lower-cased and whitespace outside is canonical; the text before an own-line "
+             "toggle at a statement boundary equals format(prefix). non-trivial = the case has verbatim tokens",
+        bounds={"quick": "progs(d<=1) x all gap pairs x 3 spellings x 2 configs; 45 asm bodies x 18 shapes x 6 configs; seeds x 6",
+                "thorough": "progs(d<=1) x all gap pairs x 7 spellings x 6 configs; progs(d<=2) x 3 spellings x 1 config; 240 asm bodies x 18 x 6; seeds x covering array"},
+        assumptions=UNIVERSAL_ASSUME + ["an ignored token is reproduced together with its own leading whitespace (the gap before the off comment belongs to the verbatim unit)"],
+    ),
+    "C12": dict(
+        level="model_checking",
+        rule="every multi-line literal of the stated shape space (quotes x 0..n interior lines, each with one of 7 indentation kinds x 5 "
+             "contents; 5 terminator patterns incl. lone CR and mixed; 6 base indentations; 3 continuations after the closing quotes; "
+             "expression positions incl. anonymous-routine body and pasfmt-off region) x configurations, formatted by the real code; the "
+             "reference model computes the literal's value and the expected re-indentation; non-trivial = the case contains a literal",
+        bounds={"quick": "interior lines <= 2, quotes {3,5}, 4 positions, 4 configs (3.6M cases)",
+                "thorough": "interior lines <= 2 x quotes {3,5,7} x 6 positions x 6 configs; interior lines <= 3 x quotes 3 x 2 positions x 3 configs"},
+        assumptions=["the value model (oracles2.rs: ml_lit) is the property's definition: interior lines minus the closing line's indentation, a blank line that is a prefix of it counts as empty"],
+    ),
+    "C15": dict(
+        level="exploration",
+        rule="every input of the stated families x every cursor offset on a char boundary plus len+1, len+1000, u32::MAX: all at once, "
+             "each alone, and every ordered pair for inputs <= 12 bytes; output must equal the cursor-free output, cursors in range and on "
+             "char boundaries, cursors inside/at end of an unchanged token keep their offset in it, cursors past the end map to the end",
+        bounds={"quick": "soup(k<=2, 3 gaps, 2 contexts) x 2 configs; chars(<=2); progs(d<=1) bases; all seeds (one list each); 9720 literal texts; asm bodies",
+                "thorough": "soup(k<=2, 5 gaps, 12 contexts) x 3 configs; chars(<=3); progs(d<=2) bases, progs(d<=1) comment/directive variants; seeds x 6 configs with singles; literal texts (<=2 lines); asm bodies (2 lines)"},
+        assumptions=UNIVERSAL_ASSUME,
+    ),
+})
 CHECKS["C01"]["bounds"]["quick"] += "; progs(d<=1) x comment+directive variants x 2 configs"
 CHECKS["C08"]["bounds"]["quick"] += "; end-of-file clause: progs(d<=2) x bases x 6 configs, wf seeds x 6"
 CHECKS["C13"]["bounds"]["quick"] += "; progs(d<=1) variants and all seeds: input and formatted output"
